@@ -9,6 +9,7 @@ import (
 
 	"github.com/TimothyStiles/poly/transform/codon"
 	"pgregory.net/rapid"
+	"verifharness/internal/ctab"
 	"verifharness/internal/ref"
 	"verifharness/internal/vk"
 )
@@ -94,6 +95,27 @@ func check(c Case) error {
 	}
 	if len(got) != len(in)/3 {
 		return vk.Errf("table %d: %d letters gave %d residues", c.Table, len(in), len(got))
+	}
+	// the same genetic code held in other ways - a detached copy, a copy whose lists are in another order, copies
+	// re-weighted from coding sequences (which leaves the codon-to-amino-acid assignment untouched: all weights
+	// zero, weights from this very input, weights from a short gene) - translates the same
+	for _, v := range []struct {
+		what string
+		spec ctab.Spec
+	}{
+		{"a detached copy", ctab.Spec{ID: c.Table}},
+		{"a copy listing amino acids and codons in another order", ctab.Spec{ID: c.Table, Order: 1 + c.CaseMask>>1}},
+		{"a copy re-weighted from the empty sequence", ctab.Spec{ID: c.Table, Reweight: true}},
+		{"a copy re-weighted from this input", ctab.Spec{ID: c.Table, Reweight: true, Seq: vk.SeqSpec{Lit: upper}}},
+		{"a copy re-weighted twice, last from a short gene", ctab.Spec{ID: c.Table, Reweight: true, Twice: true, Seq: vk.SeqSpec{Lit: "ATGGCTAAATAA"}}},
+	} {
+		if (c.Kind == "string" && len(upper) > 300 && c.CaseMask%4 != 0) || (c.Kind != "string" && c.CaseMask != 0) {
+			break // long strings: one case in four carries the five extra translations; single codons: the upper-case spelling does
+		}
+		g2, err := translate(in, v.spec.Build())
+		if err != nil || g2 != want {
+			return vk.Errf("table %d (%s): Translate(%q) with %s = %q (err %v), NCBI gives %q", c.Table, g.Name, in, v.what, g2, err, want)
+		}
 	}
 	if c.Kind == "string" {
 		// case is irrelevant
